@@ -236,7 +236,7 @@ class Batch:
             return self.option_args(program)
         a = ["--mcmc-steps", str(cfg["steps"]), "--mcmc-burn", str(cfg["steps"] // 3), "--mcmc-chains", str(cfg["chains"]),
              "--mcmc-seed", str(cfg["mcmc_seed"])]
-        if program == "assemble" and cfg["temperatures"]:
+        if program == "assemble" and cfg["temperatures"] and cfg["temperatures"] != "file":
             a += ["--mcmc-temperatures"] + [str(t) for t in cfg["temperatures"]]
         return a + self.option_args(program)
 
